@@ -11,7 +11,7 @@ from .. import regexlang, tables
 from ..cfg import CFG
 from ..model import AnalysisError, Func, own_nodes, unparse
 from ..pipeline import Pipeline
-from ..util import calls, const_str
+from ..util import assignments_to, calls, const_str
 from ..values import Val
 from .c07 import SYMBOLS
 
@@ -34,6 +34,7 @@ ASSUMPTIONS = [
 
 RAM = "synrbl.SynUtils.chem_utils.remove_atom_mapping"
 ORGANIC = ["B", "C", "N", "O", "P", "S", "F", "Cl", "Br", "I"]
+AROMATIC = ["b", "c", "n", "o", "p", "s"]
 FALLBACK_VALENCES = {"B": [3], "C": [4], "N": [3], "O": [2], "P": [3, 5], "S": [2, 4, 6], "F": [1], "Cl": [1], "Br": [1], "I": [1, 3, 5]}
 
 
@@ -79,16 +80,16 @@ MAP_POS = {"[CH3:1]": "[CH3]", "[C:12]": "[C]", "[13C@@H:7]": "[13C@@H]", "[O-:3
 MAP_NEG = ["c1ccccc:1", "C:1", "c:c", "c1cc:c:cc1", "C1=CC=CC=C:1", "c:1[CH3]c1"]
 
 
-def rule_rg1_rg2(ctx) -> None:
+def rule_rg1_rg2(ctx, rg1: str = "C15-Rg1", rg2: str = "C15-Rg2") -> None:
     f = ctx.prog.func(RAM)
-    ctx.rule("C15-Rg1", "bracket-dropping rewrites are sound: finite language, explicit-H forms only for single-valence elements", 1)
-    ctx.rule("C15-Rg2", "the map-deleting pattern only matches inside a bracket atom", 1)
+    ctx.rule(rg1, "bracket-dropping rewrites are sound: finite language, explicit-H forms only for single-valence elements", 1)
+    ctx.rule(rg2, "the map-deleting pattern only matches inside a bracket atom", 1)
     rw = rewrites(f)
     ctx.require(rw, "remove_atom_mapping no longer rewrites with regular expressions")
     n_unbr = n_map = 0
     for call, pat, repl in rw:
         if pat is None:
-            ctx.finding("C15-Rg1", "chem_utils.remove_atom_mapping:dynamic-pattern", f.loc(call), "rewrite with a non-literal pattern cannot be analysed")
+            ctx.finding(rg1, "chem_utils.remove_atom_mapping:dynamic-pattern", f.loc(call), "rewrite with a non-literal pattern cannot be analysed")
             continue
         tree = regexlang.parse(pat)
         rx = re.compile(pat)
@@ -99,21 +100,21 @@ def rule_rg1_rg2(ctx) -> None:
             bad_pos = [s for s, want in MAP_POS.items() if rx.sub("", s) != want]
             ctxt = regexlang.has_lookaround(tree) or pat.startswith("\\[") or "(?<=" in pat
             ok = not bad_neg and not bad_pos
-            ctx.instance("C15-Rg2", "deletion pattern %r: bracket context=%s; probes outside brackets changed: %s; maps surviving: %s" % (pat, ctxt, bad_neg, bad_pos), f.loc(call), ok=ok)
+            ctx.instance(rg2, "deletion pattern %r: bracket context=%s; probes outside brackets changed: %s; maps surviving: %s" % (pat, ctxt, bad_neg, bad_pos), f.loc(call), ok=ok)
             if bad_neg:
-                ctx.finding("C15-Rg2", "chem_utils.remove_atom_mapping:map-pattern-context", f.loc(call), "pattern %r also deletes ':digits' outside bracket atoms (aromatic bond + ring closure), e.g. %r -> %r" % (pat, bad_neg[0], rx.sub("", bad_neg[0])))
+                ctx.finding(rg2, "chem_utils.remove_atom_mapping:map-pattern-context", f.loc(call), "pattern %r also deletes ':digits' outside bracket atoms (aromatic bond + ring closure), e.g. %r -> %r" % (pat, bad_neg[0], rx.sub("", bad_neg[0])))
             if bad_pos:
-                ctx.finding("C15-Rg2", "chem_utils.remove_atom_mapping:map-survives", f.loc(call), "pattern %r leaves a map number in %r" % (pat, bad_pos[0]))
+                ctx.finding(rg2, "chem_utils.remove_atom_mapping:map-survives", f.loc(call), "pattern %r leaves a map number in %r" % (pat, bad_pos[0]))
             continue
         if repl is None or "\\g<" not in repl and "\\1" not in repl:
-            ctx.instance("C15-Rg1", "rewrite %r -> %r (not an unbracketing)" % (pat, repl), f.loc(call), ok=True, nontrivial=False)
+            ctx.instance(rg1, "rewrite %r -> %r (not an unbracketing)" % (pat, repl), f.loc(call), ok=True, nontrivial=False)
             continue
         # unbracketing rewrite
         n_unbr += 1
         lang = regexlang.enumerate_language(tree)
         if lang is None:
-            ctx.instance("C15-Rg1", "pattern %r" % pat, f.loc(call), ok=False)
-            ctx.finding("C15-Rg1", "chem_utils.remove_atom_mapping:unbracket:not-finite", f.loc(call), "the language of the unbracketing pattern %r is not finite/enumerable" % pat)
+            ctx.instance(rg1, "pattern %r" % pat, f.loc(call), ok=False)
+            ctx.finding(rg1, "chem_utils.remove_atom_mapping:unbracket:not-finite", f.loc(call), "the language of the unbracketing pattern %r is not finite/enumerable" % pat)
             continue
         bad_h: set = set()
         bad_sym: set = set()
@@ -125,13 +126,20 @@ def rule_rg1_rg2(ctx) -> None:
             out = m.expand(repl)
             if not (w.startswith("[") and w.endswith("]")) or "[" in out:
                 continue
-            inner = w[1:-1]
+            inner = re.sub(r":\d+$", "", w[1:-1])  # a map number does not change the atom
             sym = out
             rest = inner[len(sym):] if inner.startswith(sym) else None
             if rest is None:
                 bad_sym.add(w)
                 continue
             seen_syms.add(sym)
+            if sym in AROMATIC:
+                # aromatic atoms: only carbon's hydrogen is implied; [nH] and n are different atoms
+                if rest.startswith("H") and sym != "c":
+                    bad_h.add(sym)
+                elif rest not in ("", "H") :
+                    bad_sym.add(w)
+                continue
             if sym not in ORGANIC:
                 # only harmful if it is a real element symbol written that way in valid input
                 if sym in SYMBOLS:
@@ -143,17 +151,21 @@ def rule_rg1_rg2(ctx) -> None:
             elif rest != "":
                 bad_sym.add(w)
         ok = not bad_h and not bad_sym
-        ctx.instance("C15-Rg1", "pattern %r -> %r: %d strings, symbols %s" % (pat, repl, len(lang), sorted(seen_syms & set(ORGANIC))), f.loc(call), ok=ok)
+        ctx.instance(rg1, "pattern %r -> %r: %d strings, symbols %s" % (pat, repl, len(lang), sorted(seen_syms & set(ORGANIC))), f.loc(call), ok=ok)
+        arom_h = sorted(x for x in bad_h if x in AROMATIC)
+        if arom_h:
+            bad_h -= set(arom_h)
+            ctx.finding(rg1, "chem_utils.remove_atom_mapping:unbracket-aromatic-H:{%s}" % ",".join(arom_h), f.loc(call), "brackets and H count are dropped for aromatic %s: only aromatic carbon's hydrogen is implied, [nH] without its brackets is a different atom (c1cc[nH]c1 -> c1ccnc1 cannot be kekulised)" % arom_h)
         if bad_h:
             ctx.finding(
-                "C15-Rg1",
+                rg1,
                 "chem_utils.remove_atom_mapping:unbracket-H:{%s}" % ",".join(sorted(bad_h)),
                 f.loc(call),
                 "brackets and H count are dropped for %s, which have several allowed valences (%s): the implicit-valence rule then picks the smallest one, e.g. O=[%sH%d] becomes O=%s"
-                % (sorted(bad_h), {s: valences(s) for s in sorted(bad_h)}, sorted(bad_h)[0], max(1, valences(sorted(bad_h)[0])[1] - 2), sorted(bad_h)[0]),
+                % (sorted(bad_h), {s: valences(s) for s in sorted(bad_h)}, sorted(bad_h)[0], max(1, (valences(sorted(bad_h)[0]) + [3, 3])[1] - 2), sorted(bad_h)[0]),
             )
         if bad_sym:
-            ctx.finding("C15-Rg1", "chem_utils.remove_atom_mapping:unbracket-symbol:{%s}" % ",".join(sorted(bad_sym)), f.loc(call), "brackets are dropped for atoms that may not be written without brackets: %s" % sorted(bad_sym))
+            ctx.finding(rg1, "chem_utils.remove_atom_mapping:unbracket-symbol:{%s}" % ",".join(sorted(bad_sym)), f.loc(call), "brackets are dropped for atoms that may not be written without brackets: %s" % sorted(bad_sym))
     ctx.require(n_map >= 1, "no map-deleting rewrite found in remove_atom_mapping")
     ctx.require(n_unbr >= 1, "no unbracketing rewrite found in remove_atom_mapping")
 
@@ -175,6 +187,7 @@ def rule_rg3(ctx) -> None:
     cfg = CFG(f.node)
     stores = [s for s in st0.stores if s.func is f and pl.reaction_col.text in s.keytexts]
     okw = False
+    abandoned = False
     for s in stores:
         val = s.value
         if isinstance(val, ast.Call):
@@ -187,8 +200,21 @@ def rule_rg3(ctx) -> None:
                 uses = [c for c in calls(f) if c.lineno > s.node.lineno and any(isinstance(a, ast.Name) and a.id == f.params[0] for a in c.args)]
                 before = [c for c in calls(f) if c.lineno < s.node.lineno and any(isinstance(a, ast.Name) and a.id == f.params[0] for a in c.args)]
                 okw = bool(uses) and not before
+                # a handler around the whole loop abandons the rows after the failing one
+                passed_loop, cur = False, getattr(s.node, "_parent", None)
+                while cur is not None and cur is not f.node:
+                    if isinstance(cur, (ast.For, ast.While)):
+                        passed_loop = True
+                    if isinstance(cur, ast.Try) and passed_loop and any(not any(isinstance(x, ast.Raise) for x in ast.walk(h)) for h in cur.handlers):
+                        okw = False
+                        ctx.instance("C15-Rg3", "the map-removal loop sits inside a try whose handler continues", f.loc(cur), ok=False)
+                        ctx.finding("C15-Rg3", "preprocess.preprocess:map-removal-abandoned", f.loc(cur), "the loop that removes the atom maps is enclosed by a handler that lets preprocess continue: after the first row that raises, the remaining rows keep their maps and are processed and returned mapped")
+                        break
+                    cur = getattr(cur, "_parent", None)
+                if not okw and any(x.construct.endswith("map-removal-abandoned") for x in ctx.findings):
+                    abandoned = True
     ctx.instance("C15-Rg3", "preprocess rewrites row[reaction] = remove_atom_mapping(row[reaction]) for every row before the frame is built", f.loc(), ok=okw)
-    if not okw:
+    if not okw and not abandoned:
         ctx.finding("C15-Rg3", "preprocess.preprocess:map-removal-first", f.loc(), "the atom-map removal is not applied to every row (guarded only by remove_aam) before the rows are read")
 
 
@@ -245,7 +271,45 @@ def rule_rg4(ctx) -> None:
                 ctx.finding("C15-Rg4", "%s:literal:%s" % (q.split("synrbl.", 1)[-1], node.value[:30]), g.loc(node), "string constant %r on the pipeline path carries an atom-map number" % node.value)
 
 
+def rule_rg5(ctx) -> None:
+    """Rows can only leave through the pipeline (stage 0 strips the maps) or the
+    cache (written from pipeline results): __rebalance_batch may not hand back
+    rows it got from anywhere else, e.g. the raw batch."""
+    ctx.rule("C15-Rg5", "rows returned by __rebalance_batch come from __run_pipeline or the cache only", 2)
+    prog = ctx.prog
+    rb = prog.func("synrbl.balancing.Balancer.__rebalance_batch")
+    rets = [r for r in own_nodes(rb.node) if isinstance(r, ast.Return) and r.value is not None]
+    ctx.require(rets, "__rebalance_batch returns nothing")
+    names = set()
+    for r in rets:
+        v = r.value.elts[0] if isinstance(r.value, ast.Tuple) and r.value.elts else r.value
+        if isinstance(v, ast.Name):
+            names.add(v.id)
+        else:
+            ctx.require(False, "__rebalance_batch returns %s; cannot trace the rows" % unparse(v)[:40])
+    allowed = {"synrbl.balancing.Balancer.__run_pipeline", "synrbl.balancing.Balancer.__try_cache"}
+    for nm in sorted(names):
+        for stmt, v, idx in assignments_to(rb, nm):
+            ok, src = False, unparse(v)[:50]
+            if isinstance(v, ast.Constant) and v.value is None:
+                ok = True
+            elif isinstance(v, ast.Call):
+                tgt = ctx.res.resolve_callee(v, rb)
+                ok = bool(tgt and tgt[0] == "func" and tgt[1] in allowed)
+                if not ok and tgt and tgt[0] == "func" and RAM in ctx.res.reachable([tgt[1]], ctx.graph):
+                    ok = True  # another producer that strips the maps itself
+                    src += " (reaches remove_atom_mapping)"
+            ctx.instance("C15-Rg5", "%s = %s" % (nm, src), rb.loc(stmt), ok=ok)
+            if not ok:
+                ctx.finding("C15-Rg5", "Balancer.__rebalance_batch:rows-from:%s" % (unparse(v.func) if isinstance(v, ast.Call) else type(v).__name__), rb.loc(stmt), "rows that did not pass the pipeline are returned (%s): they never went through the atom-map removal of stage 0" % src)
+        for c in calls(rb):
+            if isinstance(c.func, ast.Attribute) and isinstance(c.func.value, ast.Name) and c.func.value.id == nm and c.func.attr in ("append", "extend", "insert"):
+                ctx.instance("C15-Rg5", "%s" % unparse(c)[:50], rb.loc(c), ok=False)
+                ctx.finding("C15-Rg5", "Balancer.__rebalance_batch:rows-added", rb.loc(c), "rows are added to the result outside the pipeline: %s" % unparse(c)[:60])
+
+
 def check(ctx) -> None:
+    rule_rg5(ctx)
     rule_rg1_rg2(ctx)
     rule_rg3(ctx)
     rule_rg4(ctx)
